@@ -1,5 +1,6 @@
 (* Extraction of the worker / server-stop models (ExtrOcamlBasic only; numbers stay positive/Z/N/nat). *)
 From Coq Require Import Extraction ExtrOcamlBasic.
-From AN Require Import Model.Wrk.
+From AN Require Import Model.Wrk Model.SrvStop.
 Extraction Language OCaml.
-Extraction "../ocaml/worker/gen.ml" trace diag C07_ok C07_car_ok C07_restart_ok C07_fifo_ok.
+Extraction "../ocaml/worker/gen.ml" trace diag init C07_ok C07_car_ok C07_restart_ok C07_fifo_ok
+  join_poll join_results set_nth srv_trace map_signal.
